@@ -309,6 +309,12 @@ Definition count (st : state) (c : cond) : N :=
   | _ => N.of_nat (length (select st c))
   end.
 
+(* count_column: matching rows whose column is not NULL (all three paths re-check / scan) *)
+Definition non_null_at (col : N) (r : row) : bool :=
+  match nth_error (snd r) (N.to_nat col) with Some VNull | None => false | Some _ => true end.
+Definition count_column (st : state) (c : cond) (col : N) : N :=
+  N.of_nat (length (filter (non_null_at col) (select st c))).
+
 (* min / max over a column of the selected rows: first non-null, replaced when strictly better *)
 Definition agg_best (want : comparison) (col : N) (rows : list row) : option value :=
   fold_left (fun best r =>
